@@ -196,6 +196,18 @@ def argv_of(case, item):
 _LINE = re.compile(r"^(.*?) +: (.*)$")       # (the label column is padded: at least one blank before the colon)
 
 
+def _json_span(lines, i):
+    """lines[i] opens a JSON object: the index of the line that closes it (whatever the indentation style), or None"""
+    for j in range(i, min(len(lines), i + 200)):
+        if lines[j].rstrip().endswith("}"):
+            try:
+                if isinstance(json.loads("\n".join(lines[i:j + 1])), dict):
+                    return j
+            except ValueError:
+                pass
+    return None
+
+
 def split_outputs(out, modes):
     """stdout of one invocation -> one chunk of lines per expected printout, by the modes the spec gives
     (json: one object; text: a blank line then label lines; single / none: one line).  None if it does not fit."""
@@ -206,16 +218,8 @@ def split_outputs(out, modes):
     i = 0
     for m in modes:
         if m == "json":
-            if i < len(lines) and lines[i] == "{}":
-                chunks.append(lines[i:i + 1])
-                i += 1
-                continue
-            if i >= len(lines) or lines[i] != "{":
-                return None
-            j = i
-            while j < len(lines) and lines[j] != "}":
-                j += 1
-            if j >= len(lines):
+            j = _json_span(lines, i) if i < len(lines) and lines[i].startswith("{") else None
+            if j is None:
                 return None
             chunks.append(lines[i:j + 1])
             i = j + 1
@@ -223,7 +227,7 @@ def split_outputs(out, modes):
             if i >= len(lines) or lines[i] != "":
                 return None
             j = i + 1
-            while j < len(lines) and lines[j] not in ("", "{", "{}") and (_LINE.match(lines[j]) or lines[j - 1].endswith("\\")):
+            while j < len(lines) and not lines[j].startswith("{") and lines[j] != "" and (_LINE.match(lines[j]) or lines[j - 1].endswith("\\")):
                 j += 1
             chunks.append(lines[i + 1:j])
             i = j
@@ -299,21 +303,16 @@ def parse_stdout(out):
     i = 0
     while i < len(lines):
         ln = lines[i]
-        if ln == "{}":
-            res.append({"mode": "json", "rows": []})
-            i += 1
-        elif ln == "{":
-            j = i
-            while j < len(lines) and lines[j] != "}":
-                j += 1
-            d = read_json(lines[i:j + 1]) if j < len(lines) else None
+        if ln.startswith("{"):
+            j = _json_span(lines, i)
+            d = read_json(lines[i:j + 1]) if j is not None else None
             if d is None or not all(isinstance(x, str) for x in d.values()):
                 return None
             res.append({"mode": "json", "rows": [{"k": k, "lab": "", "v": decode_value(d[k])} for k in sorted(d)]})
             i = j + 1
         elif ln == "":
             j = i + 1
-            while j < len(lines) and lines[j] not in ("", "{", "{}") and (_LINE.match(lines[j]) or lines[j - 1].endswith("\\")):
+            while j < len(lines) and not lines[j].startswith("{") and lines[j] != "" and (_LINE.match(lines[j]) or lines[j - 1].endswith("\\")):
                 j += 1
             rows = read_text(lines[i + 1:j])
             if not rows:
